@@ -480,6 +480,48 @@ func extErrorsIs(fr *frame, args []value) value {
 
 func noopPrint(fr *frame, args []value) value { return tuple{0, iface{}} }
 
+// isStdStream reports whether w is an *os.File that was not opened through the
+// file-system model (stdout/stderr): output to it is dropped.
+func isStdStream(w iface) bool {
+	if w.t == nil {
+		return true
+	}
+	if pt, ok := w.t.(*types.Pointer); ok {
+		if n, ok := pt.Elem().(*types.Named); ok && n.Obj().Pkg() != nil && n.Obj().Pkg().Path() == "os" && n.Obj().Name() == "File" {
+			if ptr, ok := w.v.(*value); ok && ptr != nil {
+				if _, isModel := (*ptr).(*fileHandle); isModel {
+					return false
+				}
+			}
+			return true
+		}
+		if n, ok := pt.Elem().(*types.Named); ok && n.Obj().Pkg() != nil && n.Obj().Pkg().Path() == "text/tabwriter" {
+			return true
+		}
+	}
+	return false
+}
+
+// extFprintf formats like Sprintf and writes to w (dropped for stdout/stderr).
+func extFprintf(fr *frame, args []value) value {
+	w := args[0].(iface)
+	if isStdStream(w) {
+		return tuple{0, iface{}}
+	}
+	s := extSprintf(fr, args[1:])
+	res := callMethod(fr, w, "Write", append([]value{}, strBytes(s)...)).(tuple)
+	return res
+}
+
+func extFprint(fr *frame, args []value) value {
+	w := args[0].(iface)
+	if isStdStream(w) {
+		return tuple{0, iface{}}
+	}
+	s := extSprint(fr, args[1:])
+	return callMethod(fr, w, "Write", append([]value{}, strBytes(s)...)).(tuple)
+}
+
 // ---------------------------------------------------------------- sort
 
 func extSortSlice(fr *frame, args []value) value {
@@ -707,8 +749,8 @@ func init() {
 		"fmt.Printf":            noopPrint,
 		"fmt.Println":           noopPrint,
 		"fmt.Print":             noopPrint,
-		"fmt.Fprintf":           noopPrint,
-		"fmt.Fprint":            noopPrint,
+		"fmt.Fprintf":           extFprintf,
+		"fmt.Fprint":            extFprint,
 		"fmt.Fprintln":          noopPrint,
 		"errors.Is":             extErrorsIs,
 		"sort.Slice":            extSortSlice,
